@@ -36,7 +36,7 @@ Step ==
      \/ e.a = "RunUpToIncl" /\ D!RunUpTo(e.b, TRUE) /\ op'.res = e.res
      \/ e.a = "Step" /\ D!Step /\ op'.res = e.res
      \/ e.a = "Stop" /\ D!Stop /\ op'.res = e.res
-     \/ e.a = "EndReplication" /\ D!EndReplication /\ e.res = "ok"
+     \/ e.a = "EndReplication" /\ D!EndReplication /\ op'.res = e.res
      \/ e.a = "Cleanup" /\ D!Cleanup /\ e.res = "ok"
      \/ e.a = "Pause" /\ D!Pause
      \/ e.a = "Notif" /\ (D!Emit \/ D!AnnounceTC) /\ op'.ty = e.ty /\ op'.ts = e.ts
